@@ -1,6 +1,7 @@
 """C08 — SNAP ingress filter: no spoofed source and no unsupported path type enters SCION."""
 import templates as T
 import panic as PN
+import enc as ENC
 from facts import tokens, fmt, short, walk, strip_sites
 
 CRATES = ["snap_dataplane", "sciparse", "snap_tun"]
@@ -147,7 +148,9 @@ def run(F, R, tier, cfg):
     entries = [CHECK]
     for suf in ("create_scmp_error", "create_inbound_scmp_error", "observed_packet_meta", "outbound_packet_meta"):
         entries += [p for p in F.fns_named(suf) if p.startswith("snap_dataplane::") and not T.is_test_support(p)]
+    ENC.install()
     PN.check_entries(F, R, "C08", sorted(set(entries)), cfg)
+    ENC.hostlen_rule(F, R)
 
 
 def _unref(t):
